@@ -345,11 +345,10 @@ Proof.
 Qed.
 
 (* ================================================================ inversion of a successful join *)
+Definition jb_pre (ps : list domain) (rl : list (face * face * ornt)) : list face :=
+  filter (fun f => negb (mem face_pyeqb f (canonF (joined_faces rl)))) (all_faces ps).
 Definition join_boundary (ps : list domain) (rl : list (face * face * ornt)) : list face :=
-  match joined_faces rl with
-  | [] => canonF (all_faces ps)
-  | _ => canonF (filter (fun f => negb (mem face_pyeqb f (canonF (joined_faces rl)))) (canonF (all_faces ps)))
-  end.
+  canonF (jb_pre ps rl).
 
 Definition logical_of (nm : string) (dim : nat) (ints : list patch) (bnd : list face) (lifs : list iface) : domain :=
   mkDomain nm dim (canonP (map lpatch ints)) (canonF (map lface bnd)) lifs MNone None.
@@ -372,13 +371,8 @@ Proof.
   destruct (negb (forallb (fun p => Nat.eqb (d_dim p) (d_dim p0)) ps)); [discriminate|].
   intros H. apply bind_ok in H. destruct H as [[ifs joined] [Hl H]].
   apply join_loop_spec in Hl. destruct Hl as [rl [Hm [Hb Hj]]]. simpl in Hj. subst joined.
-  destruct (existsb (fun p => Nat.ltb (length (d_boundary p)) 2) ps); [discriminate|].
-  fold (all_faces ps) in H.
-  change (match joined_faces rl with
-          | [] => canonF (all_faces ps)
-          | _ :: _ => canonF (filter (fun f => negb (mem face_pyeqb f (canonF (joined_faces rl)))) (canonF (all_faces ps)))
-          end) with (join_boundary ps rl) in H.
-  destruct (Nat.eqb (length (join_boundary ps rl)) 1); [discriminate|].
+  change (canonF (filter (fun f => negb (mem face_pyeqb f (canonF (joined_faces rl)))) (flat_map d_boundary ps)))
+    with (join_boundary ps rl) in H.
   destruct (Nat.ltb (length (canonP (flat_map d_interiors ps))) 2); [discriminate|].
   exists rl, ifs. split; [exact Hm|]. split; [exact Hb|].
   destruct (forallb is_mapped (canonP (flat_map d_interiors ps))) eqn:Hmap.
@@ -403,36 +397,36 @@ Proof.
   - intros Hin. exists f. split; [exact Hin|]. apply (H1 f f); auto.
 Qed.
 
+Lemma jb_pre_In ps rl g :
+  fwf (all_faces ps ++ joined_faces rl) ->
+  (In g (jb_pre ps rl) <-> In g (all_faces ps) /\ ~ In g (joined_faces rl)).
+Proof.
+  intros W.
+  assert (Wj : fwf (joined_faces rl)) by (eapply fwf_sub; [|exact W]; intros; apply in_or_app; auto).
+  unfold jb_pre. rewrite filter_In. unfold canonF. split.
+  - intros [Hg Hn]. split; [exact Hg|]. intros Hj. apply negb_true_iff in Hn.
+    assert (mem face_pyeqb g (canon face_pyeqb face_str (joined_faces rl)) = true); [|congruence].
+    apply (fmem_In (all_faces ps ++ joined_faces rl)); auto.
+    + apply in_or_app; auto.
+    + intros y Hy. apply (canon_In _ _ _ _ Wj) in Hy. apply in_or_app; auto.
+    + now apply (canon_In _ _ _ _ Wj).
+  - intros [Hg Hn]. split; [exact Hg|]. apply negb_true_iff.
+    destruct (mem face_pyeqb g (canon face_pyeqb face_str (joined_faces rl))) eqn:E; [|reflexivity].
+    exfalso. apply Hn.
+    apply (fmem_In (all_faces ps ++ joined_faces rl)) in E; auto.
+    + now apply (canon_In _ _ _ _ Wj) in E.
+    + apply in_or_app; auto.
+    + intros y Hy. apply (canon_In _ _ _ _ Wj) in Hy. apply in_or_app; auto.
+Qed.
+
 Lemma join_boundary_In ps rl f :
   fwf (all_faces ps ++ joined_faces rl) ->
   (In f (join_boundary ps rl) <-> In f (all_faces ps) /\ ~ In f (joined_faces rl)).
 Proof.
-  intros W. unfold join_boundary.
-  assert (Wa : fwf (all_faces ps)) by (eapply fwf_sub; [|exact W]; intros; apply in_or_app; auto).
-  assert (Wj : fwf (joined_faces rl)) by (eapply fwf_sub; [|exact W]; intros; apply in_or_app; auto).
-  destruct (joined_faces rl) as [|j0 jr] eqn:Ej.
-  - unfold canonF. rewrite (canon_In _ _ _ _ Wa). simpl. tauto.
-  - rewrite <- Ej in *. clear Ej j0 jr.
-    set (flt := filter _ _).
-    assert (Hflt : forall g, In g flt <-> In g (all_faces ps) /\ ~ In g (joined_faces rl)).
-    { intros g. unfold flt. rewrite filter_In. unfold canonF. rewrite (canon_In _ _ _ _ Wa).
-      split.
-      - intros [Hg Hn]. split; [exact Hg|]. intros Hj. apply negb_true_iff in Hn.
-        assert (mem face_pyeqb g (canon face_pyeqb face_str (joined_faces rl)) = true); [|congruence].
-        apply (fmem_In (all_faces ps ++ joined_faces rl)); auto.
-        + apply in_or_app; auto.
-        + intros y Hy. apply (canon_In _ _ _ _ Wj) in Hy. apply in_or_app; auto.
-        + now apply (canon_In _ _ _ _ Wj).
-      - intros [Hg Hn]. split; [exact Hg|]. apply negb_true_iff.
-        destruct (mem face_pyeqb g (canon face_pyeqb face_str (joined_faces rl))) eqn:E; [|reflexivity].
-        exfalso. apply Hn.
-        apply (fmem_In (all_faces ps ++ joined_faces rl)) in E; auto.
-        + now apply (canon_In _ _ _ _ Wj) in E.
-        + apply in_or_app; auto.
-        + intros y Hy. apply (canon_In _ _ _ _ Wj) in Hy. apply in_or_app; auto. }
-    assert (Wf : fwf flt).
-    { eapply fwf_sub; [|exact Wa]. intros g Hg. now apply Hflt in Hg. }
-    unfold canonF. rewrite (canon_In _ _ _ _ Wf). apply Hflt.
+  intros W. unfold join_boundary, canonF.
+  assert (Wf : fwf (jb_pre ps rl)).
+  { eapply fwf_sub; [|exact W]. intros g Hg. apply (jb_pre_In _ _ _ W) in Hg. apply in_or_app. tauto. }
+  rewrite (canon_In _ _ _ _ Wf). now apply jb_pre_In.
 Qed.
 
 (* ---------------------------------------------------------------- sides of the interfaces *)
@@ -913,26 +907,20 @@ Lemma join_intro ps cs nm rl ifs :
   2 <= length ps ->
   forallb (fun p => Nat.eqb (d_dim p) (join_dim ps)) ps = true ->
   resolve_all ps cs = Ok rl -> build_ifs rl [] = Ok ifs ->
-  existsb (fun p => Nat.ltb (length (d_boundary p)) 2) ps = false ->
-  length (join_boundary ps rl) <> 1 ->
   2 <= length (canonP (flat_map d_interiors ps)) ->
   forall lifs,
   (forallb is_mapped (canonP (flat_map d_interiors ps)) = true -> logical_conn ifs [] = Ok lifs) ->
   join ps cs nm = Ok (join_result ps nm rl ifs lifs).
 Proof.
   destruct ps as [|p0 [|p1 r]]; simpl length; try lia. intros _.
-  intros Hd Hr Hb He Hl Hi lifs HL.
+  intros Hd Hr Hb Hi lifs HL.
   unfold join. set (ps := p0 :: p1 :: r) in *.
   assert (Hd' : forallb (fun p => Nat.eqb (d_dim p) (d_dim p0)) ps = true) by exact Hd.
   rewrite Hd'. simpl negb. cbv iota.
   unfold resolve_all in Hr. change (join_dim ps) with (d_dim p0) in Hr.
   rewrite (join_loop_intro ps (by_indices cs) (d_dim p0) cs rl [] ifs [] Hr Hb). cbn [bind app]. cbv beta iota.
-  rewrite He. fold (all_faces ps).
-  change (match joined_faces rl with
-          | [] => canonF (all_faces ps)
-          | _ :: _ => canonF (filter (fun f => negb (mem face_pyeqb f (canonF (joined_faces rl)))) (canonF (all_faces ps)))
-          end) with (join_boundary ps rl).
-  destruct (Nat.eqb (length (join_boundary ps rl)) 1) eqn:E1; [apply Nat.eqb_eq in E1; contradiction|].
+  change (canonF (filter (fun f => negb (mem face_pyeqb f (canonF (joined_faces rl)))) (flat_map d_boundary ps)))
+    with (join_boundary ps rl).
   change (2 <= length (canonP (flat_map d_interiors ps))) in Hi.
   destruct (Nat.ltb (length (canonP (flat_map d_interiors ps))) 2) eqn:E2; [apply Nat.ltb_lt in E2; lia|].
   unfold join_result.
@@ -1136,20 +1124,14 @@ Qed.
 (* ================================================================ C15: round trip of a joined domain *)
 Lemma join_inv_checks ps cs nm D :
   2 <= length ps -> join ps cs nm = Ok D ->
-  forallb (fun p => Nat.eqb (d_dim p) (join_dim ps)) ps = true
-  /\ existsb (fun p => Nat.ltb (length (d_boundary p)) 2) ps = false
-  /\ length (d_boundary D) <> 1 /\ 2 <= length (d_interiors D).
+  forallb (fun p => Nat.eqb (d_dim p) (join_dim ps)) ps = true /\ 2 <= length (d_interiors D).
 Proof.
   destruct ps as [|p0 [|p1 r]]; simpl length; try lia. intros _.
   unfold join. set (ps := p0 :: p1 :: r).
   destruct (forallb (fun p => Nat.eqb (d_dim p) (d_dim p0)) ps) eqn:Hd; [|discriminate]. simpl negb. cbv iota.
   intros H. apply bind_ok in H. destruct H as [[ifs joined] [Hl H]].
-  destruct (existsb (fun p => Nat.ltb (length (d_boundary p)) 2) ps) eqn:He; [discriminate|].
-  match type of H with (if Nat.eqb (length ?b) 1 then _ else _) = _ => set (bnd := b) in * end.
-  destruct (Nat.eqb (length bnd) 1) eqn:E1; [discriminate|].
   destruct (Nat.ltb (length (canonP (flat_map d_interiors ps))) 2) eqn:E2; [discriminate|].
-  apply Nat.eqb_neq in E1. apply Nat.ltb_ge in E2.
-  split; [exact Hd|]. split; [reflexivity|].
+  apply Nat.ltb_ge in E2. split; [exact Hd|].
   destruct (forallb is_mapped (canonP (flat_map d_interiors ps))).
   - apply bind_ok in H. destruct H as [lifs [_ H]]. inversion H; subst D. simpl. auto.
   - inversion H; subst D. simpl. auto.
@@ -1228,25 +1210,7 @@ Lemma join_boundary_pre A X :
     (fwf (all_faces A ++ joined_faces X) ->
      forall f, In f Z <-> In f (all_faces A) /\ ~ In f (joined_faces X)).
 Proof.
-  unfold join_boundary. destruct (joined_faces X) as [|j0 jr] eqn:Ej.
-  - exists (all_faces A). split; [reflexivity|]. intros _ f. simpl. tauto.
-  - rewrite <- Ej. eexists. split; [reflexivity|]. intros W g.
-    assert (Wa : fwf (all_faces A)) by (eapply fwf_sub; [|exact W]; intros; apply in_or_app; auto).
-    assert (Wj : fwf (joined_faces X)) by (eapply fwf_sub; [|exact W]; intros; apply in_or_app; auto).
-    rewrite filter_In. unfold canonF. rewrite (canon_In _ _ _ _ Wa). split.
-    + intros [Hg Hn]. split; [exact Hg|]. intros Hj. apply negb_true_iff in Hn.
-      assert (mem face_pyeqb g (canon face_pyeqb face_str (joined_faces X)) = true); [|congruence].
-      apply (fmem_In (all_faces A ++ joined_faces X)); auto.
-      * apply in_or_app; auto.
-      * intros y Hy. apply (canon_In _ _ _ _ Wj) in Hy. apply in_or_app; auto.
-      * now apply (canon_In _ _ _ _ Wj).
-    + intros [Hg Hn]. split; [exact Hg|]. apply negb_true_iff.
-      destruct (mem face_pyeqb g (canon face_pyeqb face_str (joined_faces X))) eqn:E; [|reflexivity].
-      exfalso. apply Hn.
-      apply (fmem_In (all_faces A ++ joined_faces X)) in E; auto.
-      * now apply (canon_In _ _ _ _ Wj) in E.
-      * apply in_or_app; auto.
-      * intros y Hy. apply (canon_In _ _ _ _ Wj) in Hy. apply in_or_app; auto.
+  exists (jb_pre A X). split; [reflexivity|]. intros W f. now apply jb_pre_In.
 Qed.
 
 Lemma join_boundary_ext A X B Y U :
@@ -1584,13 +1548,6 @@ Section RoundTrip.
       rewrite E. apply Nat.eqb_eq. apply patch_dims. now apply ints_In.
     - apply resolve'.
     - apply build'.
-    - destruct (existsb (fun p => Nat.ltb (length (d_boundary p)) 2) P') eqn:E; [|reflexivity]. exfalso.
-      apply existsb_exists in E. destruct E as [d [Hd Hlt]]. unfold P' in Hd.
-      apply in_map_iff in Hd. destruct Hd as [p [<- Hp]]. apply Nat.ltb_lt in Hlt.
-      destruct (patch_dom_fields p) as [_ [_ [_ [_ Hl]]]].
-      assert (patch_wf p) as [_ [_ [H1 _]]] by (apply Wp; now apply ints_In).
-      pose proof (patch_like_two _ _ Hl H1). lia.
-    - rewrite boundary'. lia.
     - rewrite canon_ints. apply ints_len.
   Qed.
 
@@ -1802,14 +1759,20 @@ Definition ring3 : res domain :=
          mkConn (mkSide (PIdx 1) 0 1) (mkSide (PIdx 2) 0 (-1)) None;
          mkConn (mkSide (PIdx 2) 0 1) (mkSide (PIdx 0) 0 (-1)) None ] "ring".
 
-(* a selected patch that keeps fewer than two boundary faces makes the extraction raise
-   (`for b in p.boundary` on a bare Boundary / None inside Domain.join) *)
-Theorem get_subdomain_raises_refuted :
-  exists D, ring3 = Ok D /\ valid_tuple D ["A"; "B"] = true /\
-            get_subdomain D (SelTuple ["A"; "B"]) = Err EType.
+(* two of three lines joined in a ring: each selected patch keeps ONE boundary face.  Before the repair of
+   Domain.join (commit be11fac: external boundary computed member-wise) this raised TypeError
+   (`for b in p.boundary` on a bare Boundary); now the sub-domain is what the geometry says. *)
+Theorem get_subdomain_ring :
+  exists D S, ring3 = Ok D /\ valid_tuple D ["A"; "B"] = true /\
+    get_subdomain D (SelTuple ["A"; "B"]) = Ok (Some S) /\
+    d_boundary S = [mkFace lnA 0 (-1); mkFace lnB 0 1] /\
+    d_conn S = [mkIface "A|B" (mkFace lnA 0 1) (mkFace lnB 0 (-1)) ONone] /\
+    d_interiors S = [lnA; lnB].
 Proof.
   destruct ring3 as [D|] eqn:E; [|vm_compute in E; discriminate].
-  exists D. vm_compute in E. inversion E; subst D. split; [reflexivity|]. split; vm_compute; reflexivity.
+  vm_compute in E. inversion E; subst D. clear E.
+  eexists. eexists. split; [reflexivity|]. split; [vm_compute; reflexivity|].
+  split; [vm_compute; reflexivity|]. simpl. auto.
 Qed.
 
 (* an interface from a patch to itself is neither kept as an interface nor returned to the boundary *)
@@ -1982,7 +1945,10 @@ Proof.
   unfold resolve_all in Hr. simpl in Hr. inversion Hr; subst rl. simpl in Hb. inversion Hb as [Hc'].
   split; [now rewrite Hc, <- Hc'|]. split; [exact Hn|]. split; [exact Hd|]. split.
   - rewrite Hi. simpl. now rewrite app_nil_r.
-  - rewrite Hbd. unfold join_boundary, all_faces. simpl. now rewrite app_nil_r.
+  - rewrite Hbd. unfold join_boundary, jb_pre, all_faces. simpl flat_map. rewrite app_nil_r. f_equal.
+    assert (E : forall l : list face, filter (fun f => negb (mem face_pyeqb f (canonF (joined_faces [])))) l = l).
+    { induction l as [|a l IH]; [reflexivity|]. simpl in *. now rewrite IH. }
+    apply E.
 Qed.
 
 Definition own (d : domain) (n : string) : list face :=
@@ -2593,4 +2559,106 @@ Proof.
       + intros ->. unfold iface_pyeqb. now rewrite String.eqb_refl, !face_pyeqb_refl, ornt_beq_refl.
     - intros E. eapply NoDup_map_inj_on; eauto. }
   split; [intros i; apply (canon_In _ _ _ _ W)|]. split; [apply (canon_NoDup _ _ _ _ W)|apply canon_sorted].
+Qed.
+
+(* ================================================================ sub-domain extraction never fails on a proper
+   selection (after the repair of Domain.join: no condition on how many faces a patch keeps) *)
+Lemma two_members_len {A} (l : list A) a b : In a l -> In b l -> a <> b -> 2 <= length l.
+Proof.
+  destruct l as [|x [|y r]]; simpl; try tauto; [|lia].
+  intros [<-|[]] [<-|[]] H. congruence.
+Qed.
+
+Lemma sub_loop_total d names :
+  pwf (d_interiors d) ->
+  (forall p, In p (d_interiors d) -> p_dim p = d_dim d) ->
+  forall todo idict ifs prev,
+    NoDup todo ->
+    (forall n, In n todo -> n <> d_name d /\ In n (interior_names d)) ->
+    (forall pd, prev = Some pd ->
+       d_dim pd = d_dim d /\ d_interiors pd <> [] /\
+       forall q, In q (d_interiors pd) -> In q (d_interiors d) /\ ~ In (pname q) todo) ->
+    (prev = None -> todo <> []) ->
+    exists jd ifs', sub_loop d todo names idict ifs prev = Ok (Some jd, ifs').
+Proof.
+  intros WP Hdim. induction todo as [|name r IH]; intros idict ifs prev ND Hn Hprev Hne.
+  - destruct prev as [pd|]; [simpl; eauto|]. exfalso. now apply Hne.
+  - rewrite sub_loop_cons. destruct (Hn name (or_introl eq_refl)) as [Hnd Hin].
+    destruct (String.eqb_spec name (d_name d)) as [E|_]; [contradiction|].
+    inversion ND as [|? ? Hnr NDr]; subst.
+    destruct (find (fun p => String.eqb (pname p) name) (d_interiors d)) as [p|] eqn:Ep.
+    2:{ exfalso. unfold interior_names in Hin. apply in_map_iff in Hin. destruct Hin as [q [Eq Hq]].
+        pose proof (find_none _ _ Ep q Hq) as Hc. simpl in Hc. rewrite Eq, String.eqb_refl in Hc. discriminate. }
+    apply find_some in Ep. destruct Ep as [Hp Epn]. apply String.eqb_eq in Epn.
+    destruct (sub_others name names (interior_names d) idict (own d name) ifs) as [[idict' bnds] ifs1].
+    cbv zeta.
+    assert (Hnd' : forall q, In q (d_interiors (sub_single p bnds)) -> In q (d_interiors d) /\ ~ In (pname q) r).
+    { intros q [<-|[]]. split; [exact Hp|]. now rewrite Epn. }
+    destruct prev as [pd|].
+    + destruct (Hprev pd eq_refl) as [Hd [Hne' Hq]].
+      assert (HJ : exists J, join [pd; sub_single p bnds] []
+                     (String.append (d_name pd) (String.append "|" (d_name (sub_single p bnds)))) = Ok J
+                   /\ d_dim J = d_dim d /\ d_interiors J = canonP (d_interiors pd ++ [p])).
+      { eexists. split.
+        - apply join_intro with (rl := []) (ifs := []) (lifs := []).
+          + simpl; lia.
+          + simpl. rewrite Nat.eqb_refl. simpl. rewrite Hd, (Hdim p Hp), Nat.eqb_refl. reflexivity.
+          + reflexivity.
+          + reflexivity.
+          + change (flat_map d_interiors [pd; sub_single p bnds]) with (d_interiors pd ++ [p]).
+            destruct (d_interiors pd) as [|q ql] eqn:Eq; [congruence|].
+            assert (Hqq : In q (q :: ql)) by now left. destruct (Hq q Hqq) as [Hq1 Hq2].
+            assert (W : pwf ((q :: ql) ++ [p])).
+            { eapply wf_incl; [|exact WP]. intros x Hx. apply in_app_or in Hx. destruct Hx as [Hx|[<-|[]]]; [|exact Hp].
+              now apply Hq. }
+            apply (two_members_len _ q p).
+            * unfold canonP. apply (canon_In _ _ _ _ W). apply in_or_app. now left.
+            * unfold canonP. apply (canon_In _ _ _ _ W). apply in_or_app. right. now left.
+            * intros ->. apply Hq2. left. now symmetry.
+          + intros _. reflexivity.
+        - unfold join_result. change (flat_map d_interiors [pd; sub_single p bnds]) with (d_interiors pd ++ [p]).
+          destruct (forallb is_mapped (canonP (d_interiors pd ++ [p]))); simpl; rewrite Hd; auto. }
+      destruct HJ as [J [EJ [JD JI]]]. rewrite EJ. cbn [bind].
+      apply IH; auto.
+      * intros n Hn'. apply Hn. now right.
+      * intros pd' Epd. inversion Epd; subst pd'. split; [exact JD|].
+        assert (W : pwf (d_interiors pd ++ [p])).
+        { eapply wf_incl; [|exact WP]. intros x Hx. apply in_app_or in Hx. destruct Hx as [Hx|[<-|[]]]; [|exact Hp].
+          now apply Hq. }
+        split.
+        -- rewrite JI. intros E0.
+           assert (In p (canonP (d_interiors pd ++ [p]))) as Hc
+             by (unfold canonP; apply (canon_In _ _ _ _ W); apply in_or_app; right; now left).
+           rewrite E0 in Hc. destruct Hc.
+        -- intros q Hqin. rewrite JI in Hqin. unfold canonP in Hqin. apply (canon_In _ _ _ _ W) in Hqin.
+           apply in_app_or in Hqin. destruct Hqin as [Hqin|[<-|[]]].
+           ++ destruct (Hq q Hqin) as [A B]. split; [exact A|]. intros C. apply B. now right.
+           ++ split; [exact Hp|]. now rewrite Epn.
+      * discriminate.
+    + apply IH; auto.
+      * intros n Hn'. apply Hn. now right.
+      * intros pd' Epd. inversion Epd; subst pd'. split; [simpl; now apply Hdim|]. split; [simpl; discriminate|exact Hnd'].
+      * discriminate.
+Qed.
+
+Theorem get_subdomain_total d l U :
+  sub_hyps d l U -> (forall p, In p (d_interiors d) -> p_dim p = d_dim d) ->
+  exists S, get_subdomain d (SelTuple l) = Ok (Some S).
+Proof.
+  intros [WU WP NDo HbU Hsides KU NU Hmulti [Hne [Hv [Hlen Hdn]]]] Hdim.
+  unfold valid_tuple in Hv. apply andb_true_iff in Hv. destruct Hv as [V1 V2].
+  assert (NDl : NoDup l) by (now apply snodup_sound).
+  assert (Hn : forall n, In n l -> n <> d_name d /\ In n (interior_names d)).
+  { intros n Hn. assert (Hnd : n <> d_name d) by (intros ->; apply smem_In in Hn; congruence).
+    split; [exact Hnd|]. rewrite forallb_forall in V2. specialize (V2 n Hn). apply orb_true_iff in V2.
+    destruct V2 as [V|V]; [now apply smem_In in V|]. apply String.eqb_eq in V. contradiction. }
+  destruct l as [|s0 l0]; [congruence|]. set (l := s0 :: l0) in *.
+  unfold get_subdomain. cbv beta iota. fold l. rewrite V1, V2. cbn [negb bind].
+  destruct (d_interiors d) as [|p1 [|p2 r0]] eqn:Ei; simpl in Hmulti; try lia.
+  cbv iota. clear Hmulti. rewrite <- Ei in *. clear Ei p1 p2 r0.
+  assert (Hl' : Nat.eqb (length l) (length (interior_names d)) = false) by (now apply Nat.eqb_neq).
+  rewrite Hl', Hdn. cbn [orb].
+  destruct (sub_loop_total d l WP Hdim l (fold_left (fun acc i => pdict_set i acc) (interfaces d) []) [] None NDl Hn)
+    as [jd [ifs E]]; [discriminate|intros _; discriminate|].
+  rewrite E. cbn [bind]. destruct (_ && _); unfold l; eauto.
 Qed.
